@@ -4,7 +4,8 @@
 
   For every method of every `msgServer` the translator lists the request type, whether it carries a `Ticket`,
   and every control-flow path as the ordered list of effect atoms (callees inlined):
-      verify  VerifyTicket* of the OVM keeper          kyc    KycDataPayload.Validate
+      verify  VerifyTicket* of the OVM keeper returned nil   reject  it returned an error
+      kyc     KycDataPayload.Validate
       write   store / params / keeper Set*,Remove*,Delete*      send   bank Send*/Mint*/Burn*
       authz   authz keeper SaveGrant/DeleteGrant/...    ext    other keeper of the SDK that may write
   `paths` are all paths, `commitPaths` those that may return a nil error (only their writes persist).
@@ -12,7 +13,7 @@
   Theorems: the ticket-bearing handlers are exactly the 17 the model knows (a new one is an unmodelled
   obligation), the others are exactly the 8 UpdateParams and 3 subaccount messages; on EVERY path of a
   ticket-bearing handler no write/send/authz/ext happens before the ticket is verified; no such handler can
-  succeed without verifying; the handlers whose payload carries KYC data validate it before moving funds.
+  succeed without verifying, and none goes on after the verifier returned an error; the handlers whose payload carries KYC data validate it before moving funds.
 
   A failing theorem is accompanied by an `#eval` error naming the handler and its source position.
 -/
@@ -29,7 +30,7 @@ private def name (h : Handler) : String := s!"{h.module}.{h.name}({h.msgType}) @
 /-- atoms that change state (of this or another module) -/
 def isEffect : Atom → Bool
   | .write | .send | .authz | .ext => true
-  | .verify | .kyc => false
+  | .verify | .reject | .kyc => false
 
 /-- no effect atom before the first `verify` (paths without any effect pass) -/
 def verifiedFirst : List Atom → Bool
@@ -119,9 +120,25 @@ theorem verify_before_first_effect :
 theorem no_success_without_verify :
     handlers.all (fun h => !h.hasTicket || h.commitPaths.all (fun p => p.contains .verify)) = true := by decide
 
+/-- nothing but the end of the path follows a rejection -/
+def rejectIsFinal (p : List Atom) : Bool :=
+  match p.dropWhile (· != .reject) with
+  | [] | [.reject] => true
+  | _ => false
+
+#eval report "handler that goes on after the verifier rejected the ticket (verdict ignored)"
+  ((handlers.filter (fun h => !h.paths.all rejectIsFinal || h.commitPaths.any (fun p => p.contains .reject))).map name)
+
+/-- The verdict is respected: when the verifier returns an error the handler does nothing further (no second
+    verification, no KYC, no effect) and does not return success. -/
+theorem rejection_ends_the_handler :
+    handlers.all (fun h => h.paths.all rejectIsFinal && h.commitPaths.all (fun p => !p.contains .reject)) = true := by
+  decide
+
 /-- Handlers without a ticket never call the verifier (nothing is half-verified). -/
 theorem plain_handlers_do_not_verify :
-    handlers.all (fun h => h.hasTicket || h.paths.all (fun p => !p.contains .verify)) = true := by decide
+    handlers.all (fun h => h.hasTicket || h.paths.all (fun p => !p.contains .verify && !p.contains .reject)) = true := by
+  decide
 
 /-! ### KYC -/
 
